@@ -866,6 +866,9 @@ func runC15(ctx *Ctx) {
 	if ctx.Want(cases + 30) {
 		c15WS(ctx, cases+30)
 	}
+	if ctx.Want(cases + 31) {
+		c15AgentBinary(ctx, cases+31)
+	}
 	for c := 0; c < ctx.N(2, 20); c++ {
 		if ctx.Want(cases + 3 + c) {
 			c15Agent(ctx, cases+3+c, ctx.Sub(cases+3+c))
